@@ -81,11 +81,11 @@ def batches(tier, seed):
         res.append(dict(args=["--seed", str(seed * 1000 + 77), "--cases", "400", "--tier", tier, "--sched", "0",
                               "--case-timeout", "60"], np=3, tag="np3_nosched", timeout=900))
     else:
-        plan = [(1, 4000), (2, 14000), (3, 14000), (4, 14000), (5, 6000), (6, 4000), (7, 2000), (8, 1500)]
+        plan = [(1, 3000), (2, 9000), (3, 9000), (4, 9000), (5, 4000), (6, 2500), (7, 1200), (8, 800)]
         for (np, n) in plan:
             res.append(dict(args=["--seed", str(seed * 1000 + 100 + np), "--cases", str(n), "--tier", tier,
                                   "--case-timeout", "90"], np=np, tag="np%d" % np, timeout=3000))
-        res.append(dict(args=["--seed", str(seed * 1000 + 177), "--cases", "4000", "--tier", tier, "--sched", "0"], np=4,
+        res.append(dict(args=["--seed", str(seed * 1000 + 177), "--cases", "3000", "--tier", tier, "--sched", "0"], np=4,
                         tag="np4_nosched", timeout=3000))
     return res
 
